@@ -21,8 +21,8 @@ RULE = ("for each (command class, repository state) the command is first run onc
         "quick samples k (first, last, every 3rd) on four classes, thorough enumerates every k on all classes; non-trivial = a fault was actually "
         "injected (stand-in/failpoint fired); distinct = (class, fault mode, k) triples")
 
-CLASSES = ["commit", "amend", "commit-initial", "reset-mixed", "reset-hard", "stash-push", "stash-pop", "checkout", "squash", "rebase", "cherry-pick", "checkpoint"]
-QUICK_CLASSES = ["commit", "stash-pop", "rebase", "reset-mixed", "amend", "checkpoint"]
+CLASSES = ["checkpoint-after-person", "commit", "amend", "commit-initial", "reset-mixed", "reset-hard", "stash-push", "stash-pop", "checkout", "squash", "rebase", "cherry-pick", "checkpoint"]
+QUICK_CLASSES = ["commit", "stash-pop", "rebase", "reset-mixed", "amend", "checkpoint", "checkpoint-after-person"]
 
 
 def build_state(t, cls):
@@ -67,6 +67,18 @@ def build_state(t, cls):
         t.run("checkout", "-q", "-b", "src"); t.ai_edit(); t.run("add", "-A"); t.run("commit", "-q", "-m", "p1")
         t.run("checkout", "-q", "main"); t.write_both("up.txt", "u\n"); t.run("add", "-A"); t.run("commit", "-q", "-m", "up")
         return ["cherry-pick", "src"]
+    if cls == "checkpoint-after-person":
+        # the journal's last record is a person's checkpoint holding the person's own uncommitted lines; then an agent edits the
+        # same file and reports. If the person's record is lost to a fault, the agent's report must not end up claiming those lines
+        f = t.files[0]
+        b = t.A.read_bytes(f).decode().splitlines()
+        b[1:1] = [t.newline() + " person", t.newline() + " person"]
+        t.write_both(f, "\n".join(b) + "\n")
+        t.A.human_ckpt([f])
+        b = t.A.read_bytes(f).decode().splitlines()
+        b[len(b):len(b)] = [t.newline() + " ai"]
+        t.write_both(f, "\n".join(b) + "\n")
+        return ["CHECKPOINT", f]
     if cls == "checkpoint":
         f = t.files[0]
         t.A.human_ckpt([f])
@@ -170,6 +182,13 @@ def battery(t, w, label, persistent_corruption=False, pre_notes=None):
                 probs.append("battery commit note invents attribution: %r" % got)
             for other, d in note.files.items():
                 if other != f and d:
+                    # no attribution is invented: in these worlds every line an agent wrote ends in " ai"
+                    ol = (nr.file_lines(head, other) or [])
+                    for h, ls in d.items():
+                        for i in ls:
+                            if 1 <= i <= len(ol) and not ol[i - 1].rstrip("\r").endswith(" ai"):
+                                probs.append("battery commit note credits a session with a line no agent wrote: %s:%d %r" % (other, i, ol[i - 1][:60]))
+                                break
                     # claims about other files in the battery commit must point at lines it added and that an agent wrote
                     added = set()
                     out = w.ogit("diff", "-U0", "--no-color", "--no-ext-diff", "%s^" % head, head, "--", other)
@@ -259,6 +278,19 @@ def run_case(case):
                     if not ("corrupt_blocks_commit" in off and how in ("dir", "unreadable"))]
             if case.get("tier") != "thorough":
                 plan = rngc.sample(plan, min(12, len(plan)))
+            # the journals themselves are always part of the plan: cut in the middle of their last record
+            allf = []
+            for dp, dn, fn in os.walk(aidir):
+                for f in fn:
+                    if f in ("checkpoints.jsonl", "INITIAL"):
+                        allf.append(os.path.relpath(os.path.join(dp, f), aidir))
+            if cls == "checkpoint-after-person" and "corrupt_loses_person_checkpoint" in off:
+                # finding D67: when the person's record (or its content snapshot) is gone altogether - journal deleted / emptied, snapshot
+                # blob deleted or damaged - the agent's report claims the person's uncommitted lines; while it is open this class only
+                # damages the journal in ways git-ai can notice (a record cut in the middle)
+                plan = []
+            for f in allf:
+                plan.append(("corrupt", "trunc-midlast", f))
         for kind, mode, k in plan:
             t2 = clone_pair(t)
             try:
@@ -285,6 +317,10 @@ def run_case(case):
                         open(p, "wb").write(data[:len(data) // 2])
                     elif mode == "trunc-n1":
                         open(p, "wb").write(data[:-1])
+                    elif mode == "trunc-midlast":
+                        body = data.rstrip(b"\n")
+                        start = body.rfind(b"\n") + 1
+                        open(p, "wb").write(data[:start + max(1, (len(body) - start) // 2)])
                     elif mode == "flip":
                         if data:
                             i = len(data) // 3
